@@ -268,6 +268,9 @@ func (c19) Gen(seed uint64, tier string) *Scenario {
 	sc.Procs = []ProcSpec{ps}
 	sc.Meta = map[string]string{"workload": mustJSON(m)}
 	sc.Knobs = Knobs{RowStride: r.Pick(1, 2, 8), Pool: "lifo", MinPerCore: r.Pick(0, 2, 10)}
+	// without --repository: tables are found relative to the working directory
+	// (which the rmrepo fault then removes under the process)
+	sc.Knobs.RelRepo = r.Bool(0.3) || (m.Fault == "rmrepo" && r.Bool(0.5))
 	sc.Sched = GenSched(seed, 1, 300)
 	if sc.Sched.Strategy == "delay" {
 		sc.Sched.Strategy = "uniform"
@@ -383,6 +386,12 @@ func (c19) Eval(t *testing.T, c *Case, dec func(int) *Decider) *Outcome {
 	o.Trace = tail(res.Log, 200)
 	o.NonTrivial = true
 	o.Stats.probe("fault:" + meta.Fault)
+	if sc.Knobs.RelRepo {
+		o.Stats.probe("relative-repository")
+		if meta.Fault == "rmrepo" {
+			o.Stats.probe("working-directory-removed")
+		}
+	}
 	if meta.Trunc > 0 {
 		o.Stats.probe("torn-input")
 	}
